@@ -314,13 +314,14 @@ CtlConsistent(s, r, reach) ==        \* set of indices of violated controls
 NoOvershoot(s, p, r) ==
   {i \in DOMAIN s.cctl :
      LET c == s.cctl[i]  nd == NodeRec(s, c.node) IN
-     /\ c.attr = "level" /\ nd.vcurve = <<>>
+     /\ c.attr = "level" /\ OnCurve(nd, Level(r, nd)) /\ OnCurve(nd, N(c.thr))
      /\ CondFalse(p, c) /\ CondTrue(r, c)
      \* only a control whose action actually changes its link forces a step (firing without effect needs none)
      /\ (IF c.what = "setting" THEN ~Close(N(p.setting[c.link]), N(c.val), Sci(1, -9), TolF)
          ELSE IF c.val = 0 THEN p.status[c.link] # Closed
          \* a link that its check valve, shut-off rule or a tank at a limit held closed opens by that mechanism, not by the control
          ELSE p.status[c.link] = Closed /\ r.status[c.link] # Closed /\ ~HeldClosed(s, p, LinkRec(s, c.link), {}))
-     /\ ~Leq(Mul(Abs(Sub(Level(r, nd), N(c.thr))), TankArea(nd)),
-             Add(Mul(FromInt(2), MaxD(Abs(N(p.dem[c.node])), Abs(N(r.dem[c.node])))), Sci(1, -5)))}
+     \* in volume terms (cylinder or volume curve): |V(level) - V(threshold)| <= 2 s of the tank's flow
+     /\ ~RClose(Zero, RSub(TankVol(nd, Level(r, nd)), TankVol(nd, N(c.thr))),
+                Add(Mul(FromInt(2), MaxD(Abs(N(p.dem[c.node])), Abs(N(r.dem[c.node])))), Sci(1, -5)), Zero)}
 =============================================================================
